@@ -21,6 +21,8 @@ pub enum Step {
     Eof,
     Misreport(usize), // how many bytes beyond the buffer length are claimed
     Lie(usize),       // claims this many bytes (within the buffer) without writing any
+    InterruptBurst(usize),        // this many interruptions in a row (logged as ONE event with a count)
+    Alternate(usize, usize),      // count x (one interruption, then n bytes) (logged as ONE event)
 }
 
 /// A reader that follows a script and logs every read call.
@@ -30,6 +32,8 @@ pub struct ScriptReader {
     pub data: Content,
     pub off: usize,
     pub log: Vec<String>,
+    pub burst_left: usize,
+    pub alt: (usize, usize, bool), // (repetitions left, n, next answer is the interruption)
 }
 
 pub enum Content {
@@ -117,6 +121,26 @@ impl Content {
 
 impl Read for ScriptReader {
     fn read(&mut self, buf: &mut [u8]) -> std::io::Result<usize> {
+        if self.burst_left > 0 {
+            self.burst_left -= 1;
+            return Err(std::io::Error::new(ErrorKind::Interrupted, "scripted interruption"));
+        }
+        if self.alt.0 > 0 {
+            if self.alt.2 {
+                self.alt.2 = false;
+                return Err(std::io::Error::new(ErrorKind::Interrupted, "scripted interruption"));
+            }
+            let n = self.alt.1;
+            if let Content::Periodic(p, _) = &self.data {
+                for (i, b) in buf[..n].iter_mut().enumerate() {
+                    *b = p[(self.off + i) % p.len()];
+                }
+            }
+            self.off += n;
+            self.alt.0 -= 1;
+            self.alt.2 = true;
+            return Ok(n);
+        }
         let step = self.script.get(self.pos).cloned().unwrap_or(Step::Eof);
         self.pos += 1;
         let remaining = self.data.len() - self.off;
@@ -164,6 +188,24 @@ impl Read for ScriptReader {
                 ));
                 Err(std::io::Error::new(kind, "scripted error"))
             }
+            Step::InterruptBurst(k) => {
+                self.log.push(format!("{{\"e\":\"read\",\"buflen\":{},\"ret\":{{\"kind\":\"int\",\"count\":{}}}}}", buf.len(), k.max(1)));
+                self.burst_left = k.max(1) - 1;
+                Err(std::io::Error::new(ErrorKind::Interrupted, "scripted interruption"))
+            }
+            Step::Alternate(count, n) => {
+                // periodic content only; the caller guarantees count * n bytes remain and n <= buf.len()
+                let (pat, off) = match &self.data {
+                    Content::Periodic(p, _) => (p.clone(), self.off),
+                    _ => panic!("Alternate needs periodic content"),
+                };
+                self.log.push(format!(
+                    "{{\"e\":\"read\",\"buflen\":{},\"ret\":{{\"kind\":\"int_okp_run\",\"n\":{},\"count\":{},\"pat\":{},\"off\":[{},{}]}}}}",
+                    buf.len(), n, count, bytes_json(&pat), off >> 16, off & 0xffff
+                ));
+                self.alt = (count, n, false);
+                Err(std::io::Error::new(ErrorKind::Interrupted, "scripted interruption"))
+            }
             Step::Lie(k) => {
                 let n = k.max(1).min(buf.len());
                 self.log.push(format!("{{\"e\":\"read\",\"buflen\":{},\"ret\":{{\"kind\":\"lie\",\"n\":{}}}}}", buf.len(), n));
@@ -196,7 +238,7 @@ fn outcome_json(o: &Obs<Result<Vec<u8>, (String, String)>>) -> String {
 pub fn run_stream(out: &mut Out, v: &dyn Var, content: Content, script: Vec<Step>, use_plain: bool) {
     let small = content.len() <= 70_000 && !script.iter().any(|st| matches!(st, Step::Lie(_)));
     let all = if small { Some(content.materialize()) } else { None };
-    let mut rd = ScriptReader { script, pos: 0, data: content, off: 0, log: Vec::new() };
+    let mut rd = ScriptReader { script, pos: 0, data: content, off: 0, log: Vec::new(), burst_left: 0, alt: (0, 0, true) };
     out.emit(Ev::new("stream_begin").str("v", v.name()).meas(0, ""));
     let o = if use_plain {
         // tlsh::hash_stream (the Normal variant)
@@ -323,6 +365,20 @@ pub fn run_c12(out: &mut Out, rng: &mut Rng, thorough: bool, only: Option<&str>,
                 }
                 run_stream(out, *v, Content::Periodic(pat, n), script, false);
             }
+        }
+    }
+    // unbounded repetition of a transient answer: 70 000 interruptions in a row (start, middle), and
+    // 66 000 deliveries of 1 - 3 bytes each preceded by an interruption (each logged as one event)
+    if with_interrupts {
+        for v in VARIANTS.iter() {
+            if only.map_or(false, |o| o != v.name()) || v.ck_len() != 1 {
+                continue;
+            }
+            let pat = rng.bytes(59);
+            let big = if thorough { 1usize << 24 } else { 70_000 };
+            run_stream(out, *v, Content::Periodic(pat.clone(), 5000), vec![Step::InterruptBurst(big), Step::Deliver(3000), Step::InterruptBurst(70_000), Step::Deliver(2000), Step::Eof], false);
+            let n = 1 + rng.below(3) as usize;
+            run_stream(out, *v, Content::Periodic(pat, 66_000 * n + 100), vec![Step::Deliver(100), Step::Alternate(66_000, n), Step::Eof], false);
         }
     }
     files(out, rng, thorough, only);
@@ -489,7 +545,7 @@ pub fn replay(path: &str, out: &mut Out) -> u64 {
         let total = content.len();
         // a Deliver step on exhausted content would answer EOF: keep one spare byte so that it cannot happen
         content.push(0);
-        let mut rd = ScriptReader { script, pos: 0, data: Content::Explicit(content), off: 0, log: Vec::new() };
+        let mut rd = ScriptReader { script, pos: 0, data: Content::Explicit(content), off: 0, log: Vec::new(), burst_left: 0, alt: (0, 0, true) };
         let o = v.hash_stream(&mut rd);
         let got: Value = serde_json::from_str(&outcome_json(&o)).unwrap();
         let mut why: Vec<String> = Vec::new();
